@@ -99,6 +99,10 @@ namespace pika::threads::detail {
 
         void set_tag(tag_type t) { state_ = pack_state(state(), state_ex(), t); }
 
+#if defined(PIKA_VERIF)
+        tagged_state_type verif_raw() const { return state_; }
+#endif
+
     protected:
         tagged_state_type state_;
     };
